@@ -157,7 +157,7 @@ func hexShort(b []byte) string {
 
 func init() {
 	// ---- EDF decoder: truncations, byte substitutions, inflated 4/2-byte fields ---------------------
-	for shard := 0; shard < 8; shard++ {
+	for shard := 0; shard < 16; shard++ {
 		shard := shard
 		harn.Register(harn.Scenario{Property: "C16", Name: fmt.Sprintf("edf-mutations-%d", shard), Run: func(c *harn.Ctx) *harn.Result {
 			r := harn.NewResult("enum")
@@ -171,7 +171,11 @@ func init() {
 			resume := resumeAt()
 			try := func(origin string, in []byte) {
 				idx++
-				if idx%8 != shard || idx < resume {
+				if idx%16 != shard || idx < resume || r.Cap != "" {
+					return
+				}
+				if !c.Deadline.IsZero() && time.Now().After(c.Deadline) {
+					r.Exhaustive, r.Cap = false, fmt.Sprintf("time budget (stopped at input #%d)", idx)
 					return
 				}
 				announce(idx, origin+" "+hexShort(in))
@@ -302,8 +306,10 @@ func init() {
 			msg  []byte
 		}{{"accept", firstStart}, {"start", firstAccept}} {
 			msg := pair.msg
-			for n := 0; n < len(msg); n += 1 + n/16 {
-				run(pair.role, msg[:n])
+			for n := 0; n < len(msg); n++ {
+				if c.Thorough || n < 24 || n >= len(msg)-12 || n%5 == 0 {
+					run(pair.role, msg[:n])
+				}
 			}
 			step := 1
 			if !c.Thorough {
